@@ -447,7 +447,8 @@ impl MixedColBuffer {
                 RawVal::Str(s) => string_col.push(&s),
                 RawVal::Int(i) => string_col.push(&i.to_string()),
                 RawVal::Float(f) => string_col.push(&f.to_string()),
-                RawVal::Null => {}
+                // placeholder so that values stay aligned with `present`
+                RawVal::Null => string_col.push(""),
             }
         }
         string_col.finalize(name, present)
